@@ -119,10 +119,16 @@ Theorem C03_sample_matrix_accepts :
     (0 < r)%nat -> (0 < c)%nat -> sample_n O src fuel d (r * c) s = Ok (l, s') ->
     sample_matrix O src fuel d r c s = Ok ({| nr := r; nc := c; dat := l |}, s').
 Proof. exact @sample_matrix_accepts. Qed.
+(** restated for the repaired [Matrix::new] (C04 finding empty-matrix:value-form-panics: the request 0 x 0 on empty data is
+    now accepted); the statement used to be [(r = 0 \/ c = 0) -> never Ok], which described the original refusal *)
 Theorem C03_sample_matrix_rejects_empty :
   forall (T S : Type) (O : Ops T) (src : source S T) (fuel : nat) (d : dist T) (r c : nat) (s : S),
-    (r = 0 \/ c = 0)%nat -> forall m s', sample_matrix O src fuel d r c s <> Ok (m, s').
+    (r = 0 \/ c = 0)%nat -> ~ (r = 0 /\ c = 0)%nat -> forall m s', sample_matrix O src fuel d r c s <> Ok (m, s').
 Proof. exact @sample_matrix_rejects_empty. Qed.
+Theorem C03_sample_matrix_empty :
+  forall (T S : Type) (O : Ops T) (src : source S T) (fuel : nat) (d : dist T) (s : S),
+    sample_matrix O src fuel d 0 0 s = Ok ({| nr := 0; nc := 0; dat := [] |}, s).
+Proof. exact @sample_matrix_empty. Qed.
 
 (** ** Gamma (Marsaglia-Tsang + boost): every returned value is positive; shape < 1 is the boost identity *)
 Theorem C03_gamma_mt_positive :
